@@ -110,7 +110,28 @@ def build_script(ob_id, info, step):
     # all deadline values that have to be ordered: existing ones and new ones of a modify step
     dvals = sorted(set([d['deadline_ns'] for d in O] + [m['deadline_ns'] for m in args.get('mods', []) if m.get('extend')]))
     rank = {v: i for i, v in enumerate(dvals)}
-    if O:
+    staggered = kind == 'expire' and O
+    if staggered:
+        # Expiry scenarios: keep the metric structure of the deadlines (equal / closer than the 100 ms rounding
+        # window / far apart).  Deliveries are re-numbered in (deadline, ack) order - the order take_expired uses -
+        # and handed out by staggered pulls: same deadline -> one pull, gap < 100 ms -> 20 ms later, else 10 s later.
+        O = sorted(O, key=lambda d: (d['deadline_ns'], d['ack']))
+        ackmap = {d['ack']: i + 1 for i, d in enumerate(O)}
+        ops.append({'op': 'publish', 'topic': TOPIC, 'count': len(O)})
+        groups = []
+        for d in O:
+            if groups and groups[-1][0]['deadline_ns'] == d['deadline_ns']:
+                groups[-1].append(d)
+            else:
+                groups.append([d])
+        t_ms = 0
+        for gi, g in enumerate(groups):
+            if gi > 0:
+                gap = g[0]['deadline_ns'] - groups[gi - 1][0]['deadline_ns']
+                t_ms += 20 if gap < 100_000_000 else 10_000
+                ops.append({'op': 'advance_abs_ms', 'ms': t_ms})
+            ops.append({'op': 'pull', 'sub': SUB, 'max': len(g)})
+    elif O:
         ops.append({'op': 'publish', 'topic': TOPIC, 'count': len(O)})
         ops.append({'op': 'pull', 'sub': SUB, 'max': len(O)})
         if len(dvals) > 1 or kind in ('modify', 'expire'):
@@ -149,8 +170,9 @@ def build_script(ob_id, info, step):
         return None
     ops += [{'op': 'signal', 'sub': SUB}, {'op': 'stats', 'sub': SUB}, {'op': 'pull', 'sub': SUB, 'max': 1000}]
     # timeline probe: just after each deadline of the scenario, what has become available again?
-    for r in range(len(dvals)):
-        ops += [{'op': 'advance_abs_ms', 'ms': 30_000 + 10_000 * r + 500}, {'op': 'pull', 'sub': SUB, 'max': 1000}]
+    if not staggered:
+        for r in range(len(dvals)):
+            ops += [{'op': 'advance_abs_ms', 'ms': 30_000 + 10_000 * r + 500}, {'op': 'pull', 'sub': SUB, 'max': 1000}]
     ops += [{'op': 'advance_ms', 'ms': 2_000_000}, {'op': 'pull', 'sub': SUB, 'max': 1000}, {'op': 'stats', 'sub': SUB}]
     return {'judge': 'actor_script', 'ops': ops, 'ack_deadline_s': max(10, int(info.get('ack_deadline_s', 10)))}
 
